@@ -24,6 +24,9 @@ EXPLANATION = (
 EXPLANATION += (
     " " + 'R4 also: PhasedInputReader.read (called once per sample) never modifies the per-chromosome tables of the phase-input VCFs or anything reached from them by plain attribute/subscript/iteration views.'
 )
+EXPLANATION += (
+    " " + 'R6 = C07.R2: whether a pseudo read fits under the cap is tested on its own half-open span.'
+)
 NOT_DECIDED = "Equality of the decoded outputs of two whole runs; reproduction of input blocks under the coverage cap (solver behaviour)."
 ASSUMPTIONS = ["pysam returns a String FORMAT field with Number=. as a tuple of its comma-separated items", "the target samples of a run are the keys of sample_superreads"]
 
